@@ -419,8 +419,9 @@ Qed.
 
 (* ---------------------------------------------------------------- regenerated syntax vs model
    Every tls.Config / dtls.Config composite literal of pkg/exporter and pkg/collector sets exactly
-   the fields the model's records carry, with the constants the theorems rely on; no config
-   field is assigned after the literal. *)
+   the fields the model's records carry, with the constants the theorems rely on; a config field
+   assigned after the literal is admitted only where `assignment_ok` says so (optional fields of
+   a crypto/tls config, with the same constants). *)
 Definition fld (fs : list (string * string)) (k : string) : option string :=
   option_map snd (find (fun kv => fst kv =? k) fs).
 Definition has (fs : list (string * string)) (k : string) : bool :=
@@ -454,12 +455,33 @@ Definition literal_ok (l : string * string * list (string * string)) : bool :=
 Definition class_present (pkg typ : string) : bool :=
   existsb (fun l => let '(p, t, _) := l in (p =? pkg) && (t =? typ)) tlscfg_literals.
 
+(* A field assigned after the literal (`config.ClientAuth = ...`): admitted only for the two
+   crypto/tls configs - whose every non-zero field is also dumped from the real value on every
+   run - only for the optional fields of the model's record (the client certificate; client
+   authentication), and only with the constant the theorems rely on.  Any other assignment
+   (InsecureSkipVerify, MinVersion, a callback, ..., or any field of a dtls.Config) fails. *)
+Definition assignment_ok (a : string * string * list (string * string)) : bool :=
+  let '(pkg, typ, fs) := a in
+  if (pkg =? "collector") && (typ =? "tls.Config") then
+    only fs ["ClientAuth"; "ClientCAs"] &&
+    (negb (has fs "ClientAuth") || is_const fs "ClientAuth" c_tls_RequireAndVerifyClientCert) &&
+    (negb (has fs "ClientCAs") || is_expr fs "ClientCAs")
+  else if (pkg =? "exporter") && (typ =? "tls.Config") then
+    only fs ["Certificates"] && is_expr fs "Certificates"
+  else false.
+
+Definition collector_assigns (k : string) : bool :=
+  existsb (fun a => let '(p, t, fs) := a in (p =? "collector") && (t =? "tls.Config") && has fs k) tlscfg_assignments.
+
 Definition tlscfg_ok : bool :=
   forallb literal_ok tlscfg_literals &&
-  match tlscfg_assignments with [] => true | _ => false end &&
+  forallb assignment_ok tlscfg_assignments &&
   class_present "exporter" "tls.Config" && class_present "collector" "tls.Config" &&
   class_present "exporter" "dtls.Config" && class_present "collector" "dtls.Config" &&
-  existsb (fun l => let '(p, t, fs) := l in (p =? "collector") && (t =? "tls.Config") && has fs "ClientAuth") tlscfg_literals.
+  (* client authentication is configured somewhere: ClientAuth together with ClientCAs *)
+  Bool.eqb (collector_assigns "ClientAuth") (collector_assigns "ClientCAs") &&
+  (existsb (fun l => let '(p, t, fs) := l in (p =? "collector") && (t =? "tls.Config") && has fs "ClientAuth") tlscfg_literals
+   || collector_assigns "ClientAuth").
 
 Lemma tlscfg_literals_ok : tlscfg_ok = true.
 Proof. vm_compute. reflexivity. Qed.
